@@ -12,6 +12,7 @@ def kindOf (ty : String) (cw : Option Nat) : Kind :=
   | "i64" => .fixed 8
   | "f64" => .fixed 8
   | "date" => .fixed 4
+  | "iv" => .fixed 12   -- months, days, milliseconds: three big-endian i32 (since /repo fix of interval:subday-part-dropped)
   | "str" => match cw with | some w => .char w | none => .blob
   | _ => .blob
 
@@ -33,6 +34,10 @@ def cellOfCanon (t : String) : Cell :=
   else if t.startsWith "i64:" then some (leBytes 8 (twos 64 ((t.drop 4).toString.toInt?.getD 0)))
   else if t.startsWith "f64:" then some (leBytes 8 (hexNat (t.drop 4).toString))
   else if t.startsWith "date:" then some (beBytes 4 (twos 32 ((t.drop 5).toString.toInt?.getD 0)))
+  else if t.startsWith "iv:" then
+    match ((t.drop 3).toString.splitOn ":").map (fun x => twos 32 (x.toInt?.getD 0)) with
+    | [m, d, ms] => some (beBytes 4 m ++ beBytes 4 d ++ beBytes 4 ms)
+    | _ => none
   else if t.startsWith "s:" then some ((bytesOfHex (t.drop 2).toString.toList).getD [])
   else if t.startsWith "blob:" then some ((bytesOfHex (t.drop 5).toString.toList).getD [])
   else none
@@ -51,6 +56,8 @@ def canonOfCell (ty : String) : Cell → String
     | "i64" => "i64:" ++ toString (untwos 64 (natOfLE bs))
     | "f64" => "f64:" ++ hexOfNat (natOfLE bs)
     | "date" => "date:" ++ toString (untwos 32 (natOfBE bs))
+    | "iv" => "iv:" ++ toString (untwos 32 (natOfBE (bs.take 4))) ++ ":" ++ toString (untwos 32 (natOfBE ((bs.drop 4).take 4)))
+        ++ ":" ++ toString (untwos 32 (natOfBE (bs.drop 8)))
     | "str" => "s:" ++ hexOfBytes bs
     | _ => "blob:" ++ hexOfBytes bs
 
@@ -167,7 +174,7 @@ partial def loop (h : IO.FS.Stream) (lastKey : String) (last : Option Built) : I
   else
     let t := tokens line
     -- types without a byte model: the implementation is checked against the read-back oracle only
-    if ["dec", "ts", "tstz", "iv", "vec"].contains (t.getD 1 "") then
+    if ["dec", "ts", "tstz", "vec"].contains (t.getD 1 "") then
       IO.println "unmodelled"
       loop h lastKey last
       return
